@@ -1,7 +1,7 @@
 //! `board` family: drive inkayaku_board::Bitboard through its public API and record every call.
 //!
 //! Case: {"id": n, "fen": "...", "ops": [ {"op": "gen"} | {"op":"make","uci":..} | {"op":"unmake"} |
-//!        {"op":"reload"} | {"op":"bare_all"} | {"op":"walk_uci","plies":n,"seed":s} | {"op":"dfs","depth":d} | {"op":"walk","plies":n,"seed":s} | {"op":"line","plies":n,"seed":s} |
+//!        {"op":"chk"} | {"op":"reload"} | {"op":"bare_all"} | {"op":"walk_uci","plies":n,"seed":s} | {"op":"dfs","depth":d} | {"op":"walk","plies":n,"seed":s} | {"op":"line","plies":n,"seed":s} |
 //!        {"op":"find_uci","s":..} | {"op":"make_uci","s":..} | {"op":"make_all_uci","list":[..]} |
 //!        {"op":"uci_to_pgn","s":..} | {"op":"pgn_to_bb","s":..} | {"op":"uci_batch"} | {"op":"san_all"} |
 //!        {"op":"perft","depth":d} ] }
@@ -213,6 +213,15 @@ impl<'a> Ctx<'a> {
                         Ok(())
                     }
                 }
+            }
+            // only the check / validity queries (cheap: used for systematic attacker geometry)
+            "chk" => {
+                let b = &mut self.board;
+                let chk = g!("is_in_check", json!([b.is_in_check(&Color::WHITE), b.is_in_check(&Color::BLACK), b.is_current_in_check()]));
+                let valid = g!("is_valid", b.is_valid());
+                let s = g!("snapshot", snap(b));
+                self.out.emit(&json!({"c": id, "ev": "chk", "chk": chk, "valid": valid, "snap": s}));
+                Ok(())
             }
             "unmake" => self.unmake(),
             // start again from the case's position (a fresh board: nothing has been made or probed on it)
